@@ -446,6 +446,17 @@ func c03Codec(c *fw.Ctx, idx int) {
 	}
 	expectGeom(c, m.name+" hex Decode", ht, exp, model.Opts{})
 	c.Count("hex_roundtrips")
+	// the bytes handed out by the first Marshal must still be that encoding after
+	// other geometries have been encoded
+	for k := 0; k < 2; k++ {
+		og := c03Model(r)
+		c.Guard("panic", func() { m.marshal(og.BuildFlat()) })
+	}
+	c.Eval(1)
+	c.Count("held_results_rechecked")
+	if d := firstDiff(got, want); d >= 0 {
+		c.Fail("result-invalidated", "%s: the slice returned by Marshal changed at offset %d after later Marshal calls on other geometries", m.name, d)
+	}
 }
 
 func clip(b []byte, at int) []byte {
@@ -750,6 +761,6 @@ func init() {
 			{Name: "unsupported-layout", Quick: 2000, Thorough: 20000, Run: c03Unsupported},
 		},
 		Require: []string{"bytes_compared", "mode_wkb-ndr", "mode_wkb-xdr", "mode_wkb-nan-ndr", "mode_ewkb-ndr", "mode_ewkb-xdr", "empty_point_rejected_in_wkb_error_mode", "encoded_with_empty_point",
-			"reader_split_pattern_0", "reader_split_pattern_3", "writer_failure_positions", "hex_roundtrips", "concatenations", "sql_scan_matching", "sql_scan_wrong_type", "sql_non_bytes_rejected", "unsupported_layout_cases"},
+			"reader_split_pattern_0", "reader_split_pattern_3", "writer_failure_positions", "hex_roundtrips", "concatenations", "sql_scan_matching", "sql_scan_wrong_type", "sql_non_bytes_rejected", "unsupported_layout_cases", "held_results_rechecked"},
 	})
 }
